@@ -39,9 +39,17 @@ let err_name = function
 let class_name = function
   | O_ok -> "ok" | O_revert -> "revert" | O_err e -> "err:" ^ err_name e | O_unsupported -> "unsupported" | O_fuel -> "fuel"
 
-(* fuel: one shared unary numeral, larger than any gas the harness uses (the model needs gas+1) *)
-let fuel : nat Lazy.t =
-  lazy (let rec mk n acc = if n = 0 then acc else mk (n - 1) (S acc) in mk 5_000_010 O)
+(* fuel: one shared unary numeral, grown on demand to gas+2 (gas+1 suffices: run_terminates_within_gas), capped *)
+let fuel_cap = 5_000_010
+let cur_fuel : nat ref = ref O
+let cur_size = ref 0
+let fuel_for (gas : string) : nat =
+  let need = if String.length gas > 6 then fuel_cap else min fuel_cap (int_of_string ("0x" ^ gas) + 2) in
+  if need > !cur_size then begin
+    let rec mk n acc = if n = 0 then acc else mk (n - 1) (S acc) in
+    cur_fuel := mk (need - !cur_size) !cur_fuel; cur_size := need
+  end;
+  !cur_fuel
 
 let rec parse_codes = function
   | "C" :: a :: c :: rest -> (z_of_hex a, bytes_of_hex c) :: parse_codes rest
@@ -62,7 +70,7 @@ let handle line =
               e_difficulty = z_of_hex difficulty; e_gaslimit = z_of_hex gaslimit; e_chainid = z_of_hex chainid;
               e_basefee = z_of_hex basefee } in
     let w = { w_store = parse_store store; w_logs = []; w_refund = Z0 } in
-    let r = call_top (Lazy.force fuel) e (bool_of_tok static) (z_of_hex to_) (bytes_of_hex input) (z_of_hex gas) w in
+    let r = call_top (fuel_for gas) e (bool_of_tok static) (z_of_hex to_) (bytes_of_hex input) (z_of_hex gas) w in
     let logs = List.rev_map (fun l ->
         "L " ^ hex_of_z l.l_addr ^ " " ^
         (if l.l_topics = [] then "-" else String.concat "," (List.map hex_of_z l.l_topics)) ^ " " ^ hex_of_bytes l.l_data)
